@@ -6,7 +6,7 @@ for line in open(os.path.join(HERE, "seeded", "RESULTS.tsv")):
     parts = line.rstrip("\n").split("\t")
     if len(parts) >= 2 and re.match(r"C\d+-\d+$", parts[0]):
         rows[parts[0]] = parts
-out = ["__N__ changes written by independent sub-agents in four batches (each given only the property text and a scratch worktree), each confirmed by me before",
+out = ["__N__ changes written by independent sub-agents in five batches (each given only the property text and a scratch worktree), each confirmed by me before",
        "it was kept: the patch applies, the package imports, the 51 baseline tests pass with it, its demonstration fails with it and passes",
        "without it (`seeded/<id>/meta.json`). `tools_seed_all.sh` applies each to `/repo`, runs the check of its property (quick tier, seed 0)",
        "and undoes it; the table is generated from `seeded/RESULTS.tsv` by `tools_design_table.py`. *deductive* = a named obligation of the",
